@@ -32,6 +32,9 @@ import (
 // differently at the call site are left alone. On the unchanged tree nothing is
 // rewritten. If the rewritten package does not type-check it is analysed as is.
 
+// useIIFE enables the function-literal fallback (measured on the refactoring corpus: no gain, one regression - off).
+const useIIFE = false
+
 type normEdit struct {
 	start, end int // byte offsets in the file
 	text       string
@@ -164,6 +167,9 @@ func (n *normalizer) normalizeOnce(pkgs []*packages.Package, overlay map[string]
 				}
 				n.exprPass(p, f, fd, cands, expanded)
 				n.walkFunc(p, f, fd, fd.Body, cands, expanded)
+				if useIIFE {
+					n.iifePass(p, f, fd, cands, expanded)
+				}
 			}
 		}
 		// every use of a candidate that is not one of the expanded calls keeps the declaration alive
@@ -594,6 +600,7 @@ func (n *normalizer) tryExpand(p *packages.Package, file *ast.File, fn *ast.Func
 		b.WriteString(")")
 		n.replace(s, b.String())
 		expanded[cand.obj]++
+		n.handled[call] = true
 		return true
 	}
 
@@ -676,11 +683,13 @@ func (n *normalizer) tryExpand(p *packages.Package, file *ast.File, fn *ast.Func
 		n.edits[p1.Filename] = append(n.edits[p1.Filename], normEdit{p1.Offset, p1.Offset, b.String()})
 		n.edits[p1.Filename] = append(n.edits[p1.Filename], normEdit{p2.Offset, p3.Offset, strings.Join(resNames, ", ")})
 		expanded[cand.obj]++
+		n.handled[call] = true
 		// the branches of the statement may contain further calls
 		return false
 	}
 	n.replace(s, b.String())
 	expanded[cand.obj]++
+	n.handled[call] = true
 	return true
 }
 
@@ -1106,4 +1115,86 @@ func splice(buf []byte, start, end int, text string) []byte {
 	out = append(out, buf[:start]...)
 	out = append(out, text...)
 	return append(out, buf[end:]...)
+}
+
+// iifePass: a call of a non-baseline helper that could not be expanded as statements (it defers, or sits inside an
+// expression) is replaced by a call of a function literal with the helper's body. That is always equivalent and turns
+// the helper from a named function the rules do not know into a closure of the function they are anchored to.
+func (n *normalizer) iifePass(p *packages.Package, file *ast.File, fn *ast.FuncDecl, cands map[*types.Func]*candidate, expanded map[*types.Func]int) {
+	fileName := n.fset.Position(file.Pos()).Filename
+	ast.Inspect(fn.Body, func(x ast.Node) bool {
+		call, ok := x.(*ast.CallExpr)
+		if !ok || n.handled[call] {
+			return true
+		}
+		cand, recvExpr := n.calleeOf(p, call, cands)
+		if cand == nil || cand.decl == fn {
+			return true
+		}
+		sig := cand.obj.Type().(*types.Signature)
+		qual, addImp, okQ := n.qualifierFor(p, file, fileName)
+		if !n.namesAgree(p, file, cand, call.Pos(), addImp) {
+			return true
+		}
+		typeStr := func(t types.Type) string { return types.TypeString(t, qual) }
+		var params, args []string
+		if recvExpr != nil {
+			rn := "_"
+			if len(cand.decl.Recv.List[0].Names) == 1 {
+				rn = cand.decl.Recv.List[0].Names[0].Name
+			}
+			arg := n.text(recvExpr)
+			_, wantPtr := sig.Recv().Type().(*types.Pointer)
+			if have := p.TypesInfo.TypeOf(recvExpr); have != nil {
+				_, havePtr := have.(*types.Pointer)
+				switch {
+				case wantPtr && !havePtr:
+					arg = "&(" + arg + ")"
+				case !wantPtr && havePtr:
+					arg = "*(" + arg + ")"
+				}
+			}
+			params = append(params, rn+" "+typeStr(sig.Recv().Type()))
+			args = append(args, arg)
+		}
+		ai := 0
+		for _, f := range cand.decl.Type.Params.List {
+			names := f.Names
+			if len(names) == 0 {
+				names = []*ast.Ident{{Name: "_"}}
+			}
+			for _, nm := range names {
+				if ai >= len(call.Args) {
+					return true
+				}
+				params = append(params, nm.Name+" "+typeStr(sig.Params().At(ai).Type()))
+				args = append(args, n.text(call.Args[ai]))
+				ai++
+			}
+		}
+		if ai != len(call.Args) {
+			return true
+		}
+		var res []string
+		for i := 0; i < sig.Results().Len(); i++ {
+			v := sig.Results().At(i)
+			if v.Name() != "" {
+				res = append(res, v.Name()+" "+typeStr(v.Type()))
+			} else {
+				res = append(res, typeStr(v.Type()))
+			}
+		}
+		if !okQ() {
+			return true
+		}
+		text := "func(" + strings.Join(params, ", ") + ")"
+		if len(res) > 0 {
+			text += " (" + strings.Join(res, ", ") + ")"
+		}
+		text += " " + n.text(cand.decl.Body) + "(" + strings.Join(args, ", ") + ")"
+		n.replace(call, text)
+		n.handled[call] = true
+		expanded[cand.obj]++
+		return false
+	})
 }
